@@ -37,10 +37,10 @@ TOL = 1e-4
 
 def plan(tier, seed):
     if tier == "quick":
-        kinds = {"cart1": 200, "cart2": 300, "cart3": 40, "sym": 160, "cyl": 100}
+        kinds = {"cart1": 200, "cart2": 300, "cart3": 40, "sym": 160, "cyl": 100, "poly": 24}
         per = 25
     else:
-        kinds = {"cart1": 8000, "cart2": 12000, "cart3": 1500, "sym": 6000, "cyl": 4000}
+        kinds = {"cart1": 8000, "cart2": 12000, "cart3": 1500, "sym": 6000, "cyl": 4000, "poly": 500}
         per = 400
     return common.shards(kinds, per_shard=per, tier=tier, seed=seed, timeout_s=3000)
 
@@ -143,6 +143,30 @@ def _gen_once(rng, kind, tier):
         if rng.random() < 0.06:
             case["num_processes"] = 2
         return case
+    if kind == "poly":
+        # strongly polydisperse emulsion: a small droplet as close to a big one as "well separated" allows
+        # (its centre is then closer to the big droplet's centre than that droplet's diameter)
+        dim = int(rng.choice([1, 2, 2]))
+        hm = float(np.round(rng.uniform(0.5, 1.5), 3))
+        w = float(rng.uniform(1.0, 1.3) * hm)
+        Rs = float(rng.uniform(3.0, 3.6) * hm)
+        margin = 1 + int(2 * w / hm) + 3
+        gap = 12 * w + 2 * margin * hm
+        Rb = float(Rs + gap + rng.uniform(2.0, 5.0) * hm)
+        d = Rb + Rs + gap * 1.02
+        pad = 4 * w + 3 * hm
+        nx = int((2 * Rb + 2 * pad + d - Rb + Rs + pad) / hm) + 2
+        ny = int((2 * Rb + 2 * pad) / hm) + 2
+        lo = [float(np.round(rng.uniform(-3, 3), 2)) for _ in range(dim)]
+        shape = [nx] + [ny] * (dim - 1)
+        spec = {"family": "cart", "bounds": [[lo[a], lo[a] + hm * shape[a]] for a in range(dim)], "shape": shape,
+                "periodic": [bool(rng.integers(0, 2)) for _ in range(dim)]}
+        cb = [lo[0] + pad + Rb] + [lo[a] + hm * shape[a] / 2 for a in range(1, dim)]
+        cs = [cb[0] + d] + [cb[a] for a in range(1, dim)]
+        dl = [{"pos": cb, "radius": Rb, "width": w}, {"pos": cs, "radius": Rs, "width": w}]
+        if rng.random() < 0.5:
+            dl = dl[::-1]
+        return {"grid": spec, "droplets": dl, "levels": [a, b], "threshold": thr, "refine_args": refine_args}
     if kind == "sym":
         fam = "polar" if rng.random() < 0.5 else "sph"
         hr = float(np.round(rng.uniform(0.3, 2.5), 4))
